@@ -41,9 +41,11 @@ int fp2_field_get_qnr() {
 #if FP_PRIME == 1150
 	return 32;
 #elif FP_PRIME == 158 || FP_PRIME == 256
-	return 4;
+	/* For p = 1 mod 4 (SM9) the non-residue is i itself: fp2_mul_nor ignores the integer part. */
+	return (fp_prime_get_mod8() % 4 == 1 ? 0 : 4);
 #elif FP_PRIME == 446 && !defined(FP_QNRES)
-	return 16;
+	/* The override is meant for BN_446 only; other primes keep what fp2_field_init() found. */
+	return (fp_param_get() == BN_446 ? 16 : core_get()->qnr2);
 #else
 	return core_get()->qnr2;
 #endif
